@@ -51,6 +51,17 @@ def jobs(tier, seed):
                 ev2 = dict(ev); og = ev2.pop('only_groups', None)
                 if og is not None and g not in og: continue     # a long symbolic name against the 8 names of POINT explodes (8 string compares per path)
                 J(P=1, C=1, S=1, F=1, order=order, ex_group=g, **ev2)
+    # shape sweep: every rank 1..3 with every extent in 0..2 (and rank 4 with extents 1..2 in thorough), for int, float and string
+    # values - the shapes are loop bounds (enumerated completely up to the bound), the values are free
+    import itertools
+    k = 0
+    for rank in ((1, 2, 3) if tier == 'quick' else (1, 2, 3, 4)):
+        for dims in itertools.product((0, 1, 2) if rank < 4 else (1, 2), repeat=rank):
+            n = 1
+            for d in dims: n *= d
+            for t in (2, 4, -1):
+                kw = dict(('ex_d%d' % i, d) for i, d in enumerate(dims))
+                J(P=1, C=0, S=1, F=1, order=k % 3, ex_group=0, ex_type=t, ex_ndim=rank, ex_n=n, ex_nlen=2, ex_dlen=k % 2, ex_slen=1 + k % 2, **kw); k += 1
     # analog-only content without a POINT:RATE (one sub-frame per frame)
     for order in (0, 1, 2): J(P=0, C=2, S=1, F=2, order=order, norate=1)
     # alignment sweep: the parameter section length goes through all 512 residues modulo the block size (0.3 s per save/load);
